@@ -69,8 +69,8 @@ def owner_of(e, env, fn_kind):
         return a if a == b else ('Fresh' if set((a, b)) <= set(('Fresh', 'Imm')) else 'Host')
     if isinstance(e, ast.Call):
         f = e.func
-        if isinstance(f, ast.Name) and f.id in FRESH_CALLS:
-            return 'Fresh'
+        if isinstance(f, ast.Name) and (f.id in FRESH_CALLS or f.id in REPO_CLASSES):
+            return 'Fresh'          # builtin constructors; instantiating a class defined in hotxlfp/** creates a new object
         if isinstance(f, ast.Attribute) and f.attr in ('deque', 'defaultdict', 'OrderedDict', 'copy', 'clone', 'upper', 'lower', 'title', 'strip', 'replace', 'join', 'split', 'format',
                                                          'rjust', 'groups', 'group', 'lex', 'yacc', 'flatten', 'numbers', 'compile'):
             return 'Fresh'
@@ -241,7 +241,27 @@ def walk_functions(repo):
                             yield rel, '%s.%s' % (n.name, m.name), m, n.name, tree
 
 
+REPO_CLASSES = set()
+
+
+def collect_repo_classes(repo):
+    """ names of the classes defined (at any level) in hotxlfp/** : calling one creates an object that belongs to the caller """
+    REPO_CLASSES.clear()
+    root = os.path.join(repo, 'hotxlfp')
+    for d, _, files in os.walk(root):
+        for fn in files:
+            if fn.endswith('.py') and 'parsetab' not in fn:
+                try:
+                    tree = ast.parse(open(os.path.join(d, fn), encoding='utf-8').read())
+                except SyntaxError:
+                    continue
+                for n in ast.walk(tree):
+                    if isinstance(n, ast.ClassDef):
+                        REPO_CLASSES.add(n.name)
+
+
 def all_sinks(repo):
+    collect_repo_classes(repo)
     out = []
     for rel, qual, node, cls, tree in walk_functions(repo):
         out.extend(analyse_function(rel, qual, node, cls))
